@@ -502,6 +502,8 @@ def run(ctx, tier):
     results += guard(ctx)
     results += writable_provenance(ctx)
     results += error_atomic(ctx)
+    import c02
+    results += c02.alternate_rule(ctx, rule='C06.alternate')
     return dict(
         results=results, stats=dict(ctx.stats),
         explanation=(
